@@ -491,7 +491,7 @@ where
 
 	let (chain_outs, last_index) = collect_chain_outputs(
 		&keychain,
-		client,
+		client.clone(),
 		pmmr_range.0,
 		Some(pmmr_range.1),
 		status_send_channel,
@@ -541,6 +541,24 @@ where
 		);
 		if let Some(ref s) = status_send_channel {
 			let _ = s.send(StatusMessage::Scanning(msg, 99));
+		}
+		// The UTXO listing above and the wallet's records were read at different times and
+		// the wallet was not locked in between: a block spending this output may have arrived,
+		// and a concurrent refresh may have (correctly) recorded the spend, after the listing
+		// was taken. Only repair an output the node still reports as unspent and the wallet
+		// still records as spent.
+		if !client
+			.get_outputs_from_node(vec![m.1.commit])?
+			.contains_key(&m.1.commit)
+		{
+			continue;
+		}
+		{
+			wallet_lock!(wallet_inst, w);
+			match w.get(&o.key_id, &o.mmr_index) {
+				Ok(cur) if cur.status == OutputStatus::Spent => o = cur,
+				_ => continue,
+			}
 		}
 		o.status = OutputStatus::Unspent;
 		// any transactions associated with this should be cancelled
